@@ -384,8 +384,13 @@ func (d *Driver) finish() int {
 		"violations":  newViol,
 	}
 	b, _ := json.MarshalIndent(ev, "", " ")
-	_ = os.MkdirAll(filepath.Join(d.Root, "evidence"), 0o755)
-	if err := os.WriteFile(filepath.Join(d.Root, "evidence", chk.ID+".json"), b, 0o644); err != nil {
+	evDir := filepath.Join(d.Root, "evidence")
+	if os.Getenv("VERIF_REPO") != "" {
+		// a drill against a scratch copy of the library: its evidence must not replace that of the real tree
+		evDir = filepath.Join(d.Root, ".build", "drill-evidence")
+	}
+	_ = os.MkdirAll(evDir, 0o755)
+	if err := os.WriteFile(filepath.Join(evDir, chk.ID+".json"), b, 0o644); err != nil {
 		fmt.Fprintln(os.Stderr, err)
 	}
 	fmt.Printf("%s %s seed=%d: cases=%d executions=%d distinct=%d known_findings=%d new_violations=%d wall=%.1fs\n",
